@@ -24,6 +24,7 @@ pub mod c13;
 pub mod c14;
 pub mod c15;
 pub mod c16;
+pub mod fat;
 pub mod serde_model;
 pub mod c18;
 pub mod c19;
